@@ -73,6 +73,43 @@ class OsProxy:
         self._shim.op("remove", _os.path.basename(str(a)))
         return _os.unlink(a, *args, **kw)
 
+    # the same file operations through the descriptor-level API (os.open / os.fdopen / os.write / os.close / os.link)
+    def open(self, path, flags, *args, **kw):
+        if not self._shim.active or not flags & (_os.O_WRONLY | _os.O_RDWR | _os.O_CREAT | _os.O_APPEND | _os.O_TRUNC):
+            return _os.open(path, flags, *args, **kw)
+        self._shim.op("open", path)
+        fd = _os.open(path, flags, *args, **kw)
+        self._shim.fds[fd] = str(path)
+        return fd
+
+    def fdopen(self, fd, *args, **kw):
+        real = _os.fdopen(fd, *args, **kw)
+        if self._shim.active and fd in self._shim.fds:
+            return FileProxy(real, self._shim, self._shim.fds[fd])
+        return real
+
+    def write(self, fd, data):
+        if fd in self._shim.fds:
+            self._shim.op("write", self._shim.fds[fd])
+        return _os.write(fd, data)
+
+    def close(self, fd):
+        if fd in self._shim.fds:
+            self._shim.op("close", self._shim.fds.pop(fd))
+        return _os.close(fd)
+
+    def link(self, a, b, *args, **kw):
+        self._shim.op("link", f"{_os.path.basename(str(a))}->{_os.path.basename(str(b))}")
+        return _os.link(a, b, *args, **kw)
+
+    def symlink(self, a, b, *args, **kw):
+        self._shim.op("symlink", f"{_os.path.basename(str(a))}->{_os.path.basename(str(b))}")
+        return _os.symlink(a, b, *args, **kw)
+
+    def truncate(self, path, length):
+        self._shim.op("truncate", _os.path.basename(str(path)))
+        return _os.truncate(path, length)
+
     def fsync(self, fd):
         self._shim.op("fsync", self._shim.fds.get(fd, f"fd{fd}"))
         return _os.fsync(fd)
